@@ -85,7 +85,7 @@ class FloatOrder:
         return False
 
     def nonneg(self, t, depth=0) -> bool:
-        if depth > 5:
+        if depth > 12:
             return False
         k = t[0]
         if self.leaf(t):
@@ -101,7 +101,7 @@ class FloatOrder:
         return False
 
     def nonpos(self, t, depth=0) -> bool:
-        if depth > 5:
+        if depth > 12:
             return False
         if self.leaf(t):
             return self.state.signs(lin_of(t)) <= frozenset([0, -1])
@@ -114,7 +114,7 @@ class FloatOrder:
     # the prover ------------------------------------------------------------------------
     def le(self, u, v, depth=0) -> bool:
         """True only if fl(u) <= fl(v) is derivable."""
-        if depth > 7:
+        if depth > 14:
             return False
         key = (u if isinstance(u, tuple) else None, v if isinstance(v, tuple) else None)
         try:
